@@ -55,7 +55,10 @@ def sh(cmd, cwd=None, timeout=3600, env=None):
 def run_gen():
     """Regenerate SV.Gen from the live tree. -> (problems, file hashes)"""
     env = dict(os.environ)
-    rc, out = sh([PY, os.path.join(HERE, "gen.py")], env=env)
+    try:
+        rc, out = sh([PY, os.path.join(HERE, "gen.py")], env=env, timeout=600)
+    except subprocess.TimeoutExpired:
+        rc, out = 1, "the translator did not finish within 600 s (an unbounded value in the tree under test?)"
     man = os.path.join(LEAN, "SV", "Gen", "manifest.json")
     problems, files = [], {}
     if rc != 0 or not os.path.exists(man):
@@ -112,7 +115,10 @@ def build_and_audit(pid: str):
     res["log"] += out[-3000:] if rc != 0 else ""
     if rc != 0:
         res["driver_ok"] = False
-    rc, out = sh(["lake", "build", f"SV.Props.{pid}"], cwd=LEAN, timeout=7200)
+    # every file Props/<pid>*.lean is a module of this property
+    mods = sorted({"SV.Props." + os.path.splitext(os.path.basename(f))[0] for _, _, f in thms3} |
+                  {f"SV.Props.{pid}"})
+    rc, out = sh(["lake", "build"] + mods, cwd=LEAN, timeout=7200)
     if rc != 0:
         res["log"] += out[-6000:]
         # map compiler errors to the theorems of the files of this property
@@ -134,7 +140,7 @@ def build_and_audit(pid: str):
     os.makedirs(audit_dir, exist_ok=True)
     apath = os.path.join(audit_dir, pid + ".lean")
     with open(apath, "w") as f:
-        f.write(f"import SV.Props.{pid}\n" + "".join(f"#print axioms {n}\n" for n, _ in thms))
+        f.write("".join(f"import {m}\n" for m in mods) + "".join(f"#print axioms {n}\n" for n, _ in thms))
     rc, out = sh(["lake", "env", "lean", apath], cwd=LEAN, timeout=1800)
     if rc != 0:
         res["log"] += out[-3000:]
@@ -155,7 +161,10 @@ def build_and_audit(pid: str):
 
 
 def leanchecker(pid: str):
-    rc, out = sh(["lake", "env", "leanchecker", f"SV.Props.{pid}"], cwd=LEAN, timeout=7200)
+    thms3, _ = theorems_of(pid)
+    mods = sorted({"SV.Props." + os.path.splitext(os.path.basename(f))[0] for _, _, f in thms3} |
+                  {f"SV.Props.{pid}"})
+    rc, out = sh(["lake", "env", "leanchecker"] + mods, cwd=LEAN, timeout=7200)
     return rc == 0, out[-2000:]
 
 
@@ -205,7 +214,31 @@ class Run:
         from realops import unhx
         if not ops:
             return [], []
+        # a text is a text whatever object carries it: every 7th constructor / validation / accessor
+        # operation is repeated with the text handed over as an unvalidated IBAN / BIC, a plain str
+        # subclass, or an IBAN / BIC object that went through default validation (if it passes)
+        from realops import CARRIED
+        n_orig = len(ops)
+        origin = {}
+        if not any(f[0].startswith("reg.") for f in ops):
+            extra = []
+            k = 0
+            for j, f in enumerate(ops):
+                if f[0] in CARRIED:
+                    k += 1
+                    if k % 7 == 0:
+                        origin[n_orig + len(extra)] = j
+                        extra.append([f[0] + "@" + ("iban", "bic", "sub", "viban", "vbic")[(k // 7) % 5]] + list(f[1:]))
+            ops = list(ops) + extra
         reals, model, diff = compare(ops)
+        for i, j in origin.items():
+            if reals[i] != reals[j]:
+                base, carrier = ops[i][0].split("@")
+                self.violation(f"{base} with the text handed over as a {carrier} object", [unhx(ops[i][1])],
+                               reals[i], reals[j],
+                               "the same characters as a plain str give the expected answer; stream " + name,
+                               kind="op", op=ops[i], expected_line=reals[j])
+        diff = [i for i in diff if i < n_orig or reals[i] != reals[origin[i]]]
         n_ops = 0
         for f, a in zip(ops, reals):
             if f[0].startswith("reg."):
@@ -230,7 +263,7 @@ class Run:
                 if not f[0].startswith("reg."):
                     self.samples.append({"stream": name, "op": f[0], "args": [readable(x) for x in f[1:]],
                                          "implementation": a})
-        return reals, model
+        return reals[:n_orig], model[:n_orig]
 
     def violation(self, call: str, args: list, observed: str, expected: str, how: str, **extra):
         v = {"property": self.pid, "kind": extra.pop("kind", "input"), "call": call, "args": args,
